@@ -779,6 +779,10 @@ class HeapInterp:
                 cur, _ = self.refine(x, cur, pc, fi)
             else:
                 _, cur = self.refine(x, cur, pc, fi)
+        # walrus targets bound while evaluating later operands are visible to the caller (fresh values)
+        for n in ast.walk(e):
+            if isinstance(n, ast.NamedExpr) and n.target.id in cur:
+                env[n.target.id] = cur[n.target.id]
         return r
 
     def e_Compare(self, e, env, pc, fi):
